@@ -21,6 +21,8 @@ POINTS = [
     {"a": 0, "b": False},
     # the same list-of-mappings value written with two key orders
     {"a": 1, "l": [{"s": "A", "c": 1}]}, {"a": 2, "l": [{"c": 1, "s": "A"}]},
+    # several differing leaves under one parent two levels down (and that parent a scalar in other jobs)
+    {"a": 2, "c": {"d": {"x": 1, "y": 2, "z": 0}}}, {"a": 2, "c": {"d": {"x": 1, "y": 3, "z": 1}, "e": 7}},
 ]
 
 
@@ -269,7 +271,7 @@ def run(ctx):
     report = Report(LEVEL)
     tot = engine_i.run_items(ctx, universe(ctx.tier), evaluate, chunk=4)
     engine_i.fill_report(report, tot, rule=(
-        "every corpus of 1..N jobs from a 16-state-point colliding universe x every sub-selection (as ids and as Job "
+        "every corpus of 1..N jobs from a 22-state-point colliding universe x every sub-selection (as ids and as Job "
         "objects) x exclude_const for detect_schema; diff_jobs on every sub-selection in every order; "
         "evaluations = API calls; distinct_nontrivial = distinct returned schemas/diffs"),
         extra={"bounds": {"max_jobs": 4 if ctx.quick else 5}, "alphabet_sizes": {"statepoints": len(POINTS)}},
